@@ -97,7 +97,9 @@ impl From<SubstreamError> for RejectReason {
             SubstreamError::IoError(ErrorKind::NotConnected) => RejectReason::ConnectionClosed,
             SubstreamError::YamuxError(crate::yamux::ConnectionError::Io(error), _)
                 if error.kind() == ErrorKind::NotConnected =>
-                RejectReason::ConnectionClosed,
+            {
+                RejectReason::ConnectionClosed
+            }
             SubstreamError::NegotiationError(crate::error::NegotiationError::IoError(
                 ErrorKind::NotConnected,
             )) => RejectReason::ConnectionClosed,
